@@ -34,25 +34,67 @@ REGIONS = {"dense-bounded-since-until-with-begin>0": region_bounded_since_until_
            "dense-signals-not-starting-at-0": region_different_starts}
 
 
+def pattern_values(rng, n):
+    """Value patterns that stress the segment stacks of the sliding-window algorithms: runs after an extreme sample, plateaus."""
+    vals = (-3.0, -2.0, -1.0, -0.5, 0.0, 0.5, 1.0, 2.0, 3.0, 4.0)
+    out = []
+    while len(out) < n:
+        k = rng.randint(1, 5)
+        start, step = rng.choice(vals), rng.choice([-1.0, -0.5, 0.0, 0.5, 1.0])
+        if out and rng.random() < 0.5:
+            out.append(rng.choice([-4.0, 5.0]))
+        out.extend(start + step * i for i in range(k))
+    return out[:n]
+
+
 def gen_case(rng, allow=None):
     g = D.DGen(rng, D.VARS, allow or D.DENSE_OFF, max_bound=rng.choice([2, 4, 8]))
-    f = g.formula(rng.choice([1, 2, 2, 3, 4]))
+    direct = allow is None and rng.random() < 0.35
+    if direct:
+        # one temporal operator (wide windows, positive lower bounds included) over shallow operands, possibly under one more
+        k = rng.choice(["tb1", "tb1", "tb2", "t2", "t1"])
+        a = rng.randint(0, 4)
+        b = a + rng.randint(0, 8)
+        sub = lambda: g.formula(rng.choice([0, 0, 1]))  # noqa: E731
+        if k == "tb1":
+            f = ("tb1", rng.choice(["once", "hist", "ev", "alw"]), a, b, sub())
+        elif k == "tb2":
+            f = ("tb2", rng.choice(["since", "until"]), a, b, sub(), sub())
+        elif k == "t2":
+            f = ("t2", rng.choice(["since", "until"]), sub(), sub())
+        else:
+            f = ("t1", rng.choice(["once", "hist", "ev", "alw"]), sub())
+        r = rng.random()
+        if r < 0.15:
+            f = ("u", "not", f)
+        elif r < 0.3:
+            f = ("b", rng.choice(["and", "or"]), f, g.formula(1))
+        elif r < 0.4:
+            a2 = rng.randint(0, 2)
+            f = ("tb1", rng.choice(["once", "hist", "ev", "alw"]), a2, a2 + rng.randint(0, 3), f)
+    else:
+        f = g.formula(rng.choice([1, 2, 2, 3, 4]))
     vs = F.variables(f) or ["x"]
     aligned = rng.random() < 0.8
-    return {"f": f, "sig": D.gen_signals(rng, vs, aligned_start=aligned), "stream": "off-c" + ("" if aligned else "/starts")}
+    sig = D.gen_signals(rng, vs, aligned_start=aligned)
+    if rng.random() < 0.4:
+        sig = {v: [(t, x) for (t, _), x in zip(s_, pattern_values(rng, len(s_)))] for v, s_ in sig.items()}
+    return {"f": f, "sig": sig, "stream": ("off-c/direct" if direct else "off-c") + ("" if aligned else "/starts")}
 
 
 def explore(ctx, rng, count):
+    cases = []
     for _ in range(count):
         c = gen_case(rng)
         if disc.known_region(ctx, c, REGIONS):
             ctx.skipped_known += 1
             continue
+        cases.append(c)
+    for c, v in D.compare_offline_batch(ctx, cases):
         ctx.evaluations += 1
         ctx.count("stream:" + c["stream"])
         for op in set(F.ops(c["f"])):
             ctx.count("op:" + op)
-        v = D.compare_offline(ctx, c["f"], c["sig"], c["stream"])
         if v is None:
             ctx.traces_validated += 1
             if len(ctx.samples) < 3 and F.depth(c["f"]) >= 3:
@@ -76,8 +118,8 @@ def extension_stream(ctx):
 
 
 def run(ctx):
-    explore(ctx, ctx.subrng("off-c"), ctx.budget(300, 6000))
+    explore(ctx, ctx.subrng("off-c"), ctx.budget(1200, 12000))
 
 
 def search(ctx):
-    explore(ctx, ctx.subrng("search"), ctx.budget(1000, 6000))
+    explore(ctx, ctx.subrng("search"), ctx.budget(2500, 12000))
